@@ -291,7 +291,24 @@ func (w *wctx) stmt(s ast.Stmt, cond string) {
 		}
 	case *ast.SwitchStmt:
 		for _, cc := range v.Body.List {
-			w.stmts(cc.(*ast.CaseClause).Body, "switch")
+			cl := cc.(*ast.CaseClause)
+			w.stmts(cl.Body, "switch")
+			// error-code table of SendResponseError: `switch err { case X: buf.B[i] = code }`
+			if v.Tag != nil && pstr(v.Tag) == "err" {
+				label := "default"
+				if len(cl.List) == 1 {
+					label = pstr(cl.List[0])
+				}
+				for _, st := range cl.Body {
+					if a, ok := st.(*ast.AssignStmt); ok && len(a.Lhs) == 1 && len(a.Rhs) == 1 {
+						if _, _, _, _, ok := w.env.bufRange(a.Lhs[0]); ok {
+							if code, ok := w.env.eval(a.Rhs[0]); ok {
+								errCodesW = append(errCodesW, errCode{label, int(code)})
+							}
+						}
+					}
+				}
+			}
 		}
 	case *ast.AssignStmt:
 		if len(v.Lhs) == 1 && len(v.Rhs) == 1 {
@@ -368,6 +385,13 @@ func (w *wctx) expr(x ast.Expr, cond string) {
 // ---------------------------------------------------------------------------------------
 // readers
 // ---------------------------------------------------------------------------------------
+
+type errCode struct {
+	name string
+	code int
+}
+
+var errCodesW, errCodesR []errCode
 
 type rctx struct {
 	env     *pEnv
@@ -516,8 +540,32 @@ func (r *rctx) stmt(s ast.Stmt) {
 		if v.Tag != nil {
 			r.findReads(v.Tag, "switch", 0)
 		}
+		_, _, _, _, tagIsBuf := r.env.bufRange(v.Tag)
 		for _, cc := range v.Body.List {
-			r.stmts(cc.(*ast.CaseClause).Body)
+			cl := cc.(*ast.CaseClause)
+			r.stmts(cl.Body)
+			// error-code table of the MessageResponseError case: `switch buf.B[i] { case code: r = X }`
+			if tagIsBuf && len(cl.List) == 1 {
+				if code, ok := r.env.eval(cl.List[0]); ok {
+					val := "nil"
+					ast.Inspect(cl, func(n ast.Node) bool {
+						switch x := n.(type) {
+						case *ast.AssignStmt:
+							if len(x.Lhs) == 1 && pstr(x.Lhs[0]) == "r" && len(x.Rhs) == 1 {
+								val = pstr(x.Rhs[0])
+							}
+						case *ast.CallExpr:
+							if pstr(x.Fun) == "edf.Decode" {
+								val = "decode"
+							}
+						}
+						return true
+					})
+					if r.kindID == "protoMessageResponseError" {
+						errCodesR = append(errCodesR, errCode{val, int(code)})
+					}
+				}
+			}
 		}
 	case *ast.AssignStmt:
 		if len(v.Lhs) == 1 && len(v.Rhs) == 1 {
@@ -799,6 +847,23 @@ func genProto() (string, error) {
 	fmt.Fprintf(&sb, "/-- send(): the compression condition is literally `compression.Enable && buf.Len() > compression.Threshold` -/\ndef zStrictThreshold : Bool := %v\n", zCmp)
 	fmt.Fprintf(&sb, "/-- send(): `c.peer_maxmessagesize > 0 && buf.Len() > c.peer_maxmessagesize` returns an error before anything is written -/\ndef sendChecksMax : Bool := %v\n\n", sendMax)
 	fmt.Fprintf(&sb, "/-- smallest capacity of a `make(chan MessageResult…)` a requester waits on (%d sites); the reply is handed over with a non-blocking send -/\ndef requestChanCap : Nat := %d\n\n", chanSites, chanCap)
+	// error-code tables of the important-delivery / call-failure acknowledgement
+	seenW := map[string]bool{}
+	var wl, rl []string
+	for _, e := range errCodesW {
+		if !seenW[e.name] {
+			seenW[e.name] = true
+			wl = append(wl, fmt.Sprintf("(%q, %d)", e.name, e.code))
+		}
+	}
+	for _, e := range errCodesR {
+		rl = append(rl, fmt.Sprintf("(%d, %q)", e.code, e.name))
+	}
+	if len(wl) < 2 || len(rl) < 2 {
+		return "", fmt.Errorf("error-code tables of SendResponseError / MessageResponseError not found (%d/%d)", len(wl), len(rl))
+	}
+	fmt.Fprintf(&sb, "/-- SendResponseError: `switch err` → code byte (\"default\" = any other error: code, then the EDF-encoded error) -/\ndef errCodeW : List (String × Nat) := [%s]\n", strings.Join(wl, ", "))
+	fmt.Fprintf(&sb, "/-- receive case MessageResponseError: code byte → error (\"decode\" = EDF-decode the error that follows, \"nil\" = success) -/\ndef errCodeR : List (Nat × String) := [%s]\n\n", strings.Join(rl, ", "))
 	sb.WriteString(protoStructs)
 	sb.WriteString("def kinds : List Kind := [\n")
 	for i, t := range order {
@@ -903,6 +968,8 @@ def zSkipBytes : Nat := 0
 def zStrictThreshold : Bool := false
 def sendChecksMax : Bool := false
 def requestChanCap : Nat := 0
+def errCodeW : List (String × Nat) := []
+def errCodeR : List (Nat × String) := []
 ` + protoStructs + `def kinds : List Kind := []
 end ErgoVerif.Generated.Proto
 `
